@@ -2530,6 +2530,7 @@ def run(ctx):
         stream("oracle.reemit", oracle_reemit, exprs[: (1200 if q else 8000)])
         stream("oracle.template-values", oracle_template_values, 150 if q else 1500)
         stream("oracle.signatures", oracle_signatures, 250 if q else 4000)
+        stream("oracle.def-attributes", oracle_def_attributes, 60 if q else 800)
         stream("oracle.blocks", oracle_blocks, execs[: (200 if q else 2000)] + execs[n_exec: n_exec + (30 if q else 300)])
         stream("oracle.identifiers", oracle_identifiers, blocks[: (800 if q else 6000)])
         stream("oracle.strict", oracle_strict_undefined,
@@ -2579,6 +2580,22 @@ def replay(ctx, data):
         except Exception as e:
             print("model: n/a", e)
         return not probs
+    if site in ("construct-demands-own-parameter", "def-attribute-value-differs"):
+        _register_mem_cache()
+        ck = [tuple(kv) for kv in case["call_kw"]]
+        got = attr_template(case["attribute"], case["params"], case["call_pos"], ck, case["param"], case["strict_undefined"])
+        want = attr_native(case["params"], case["call_pos"], ck, case["param"])
+        print("template:", got, LAST_TEMPLATE_ERROR[0] if got[0] == "exc" else "", "\nnative  :", want)
+        return got == want
+    if site == "construct-attribute-witness":
+        from mako.template import Template
+        w = next(x for x in ATTR_WITNESSES if x[0] == case["witness"])
+        try:
+            got = Template(w[1] % ("\n" + ENV_SRC + "\n"), strict_undefined=case["strict_undefined"]).render(**w[2]).strip()
+        except Exception as e:
+            got = "raises %s: %s" % (type(e).__name__, e)
+        print("renders:", repr(got), " expected:", repr(w[3]))
+        return got == w[3]
     if site == "signature-binds-different-values":
         ck = [tuple(kv) for kv in case["call_kw"]]
         got, want = sig_template(case["slot"], case["params"], case["call_pos"], ck), sig_native(case["params"], case["call_pos"], ck)
@@ -2613,7 +2630,6 @@ def canon_text(s):
     return s
 
 
-DRIVER_OPS = ["py"]   # per-area driver executable(s) this check talks to (built before any worker is forked)
 
 
 # =========================================================================== oracle: signatures of defs in real templates
@@ -2630,8 +2646,12 @@ class SigGen:
         npos = r.choice([0, 1, 1, 2, 3])
         ndef = r.randint(0, npos)
         vals = iter(["11", "'dB'", "(3 if 1 else 4)", "2 ** 3", "[5]", "66", "'dG'", "-8", "(lambda: 9)()", "1.5"])
+        nposonly = r.randint(1, npos) if npos and r.random() < 0.12 else 0
         for i in range(npos):
-            params.append({"name": "p%d" % i, "kind": "pos", "default": next(vals) if i >= npos - ndef else None})
+            params.append({"name": "p%d" % i, "kind": "posonly" if i < nposonly else "pos",
+                           "default": next(vals) if i >= npos - ndef else None})
+            if nposonly and i == nposonly - 1:
+                params.append({"name": "", "kind": "slash", "default": None})
         star = r.random() < 0.6
         nkw = r.choice([0, 1, 2, 2, 3, 4])
         if star:
@@ -2660,6 +2680,8 @@ def sig_text(params):
             out.append("*" + p["name"])
         elif p["kind"] == "bare":
             out.append("*")
+        elif p["kind"] == "slash":
+            out.append("/")
         elif p["kind"] == "dstar":
             out.append("**" + p["name"])
         else:
@@ -2672,7 +2694,7 @@ def call_text(call_pos, call_kw):
 
 
 def sig_names(params):
-    return [p["name"] for p in params if p["kind"] != "bare"]
+    return [p["name"] for p in params if p["kind"] not in ("bare", "slash")]
 
 
 SIG_SLOTS = {
@@ -2759,8 +2781,13 @@ def oracle_signatures(ctx, n):
                 ps = params[:j] + params[j + 1:]
                 if p["kind"] in ("star", "bare") and any(q["kind"] == "kw" for q in ps):
                     continue
+                if p["kind"] == "slash" and any(q["kind"] == "posonly" for q in ps):
+                    continue
+                if p["kind"] == "posonly" and not any(q["kind"] == "posonly" for q in ps):
+                    ps = [q for q in ps if q["kind"] != "slash"]
                 ck2 = [kv for kv in ck if kv[0] != p["name"]]
-                cp2 = cp[: max(0, len(cp) - 1)] if p["kind"] == "pos" and len(cp) >= len([q for q in params if q["kind"] == "pos"]) else cp
+                npos_ = len([q for q in params if q["kind"] in ("pos", "posonly")])
+                cp2 = cp[: max(0, len(cp) - 1)] if p["kind"] in ("pos", "posonly") and len(cp) >= npos_ else cp
                 if fails(ps, cp2, ck2):
                     params, cp, ck, changed = ps, cp2, ck2, True
                     break
@@ -2775,6 +2802,153 @@ def oracle_signatures(ctx, n):
         ctx.violation("signature-binds-different-values",
                       {"input": "def zz(%s) called as zz(%s)" % (sig_text(params), call_text(cp, ck)), "slot": slot,
                        "params": params, "call_pos": cp, "call_kw": [list(kv) for kv in ck], "kinds": "+".join(kinds),
-                       "bare_star": "bare" in kinds},
+                       "bare_star": "bare" in kinds, "posonly": "posonly" in kinds},
                       "template gives %r, the native function gives %r" % (sig_template(slot, params, cp, ck), sig_native(params, cp, ck)),
                       "oracle.signatures")
+
+
+# =========================================================================== oracle: a construct's own parameters in its attributes
+
+def _register_mem_cache():
+    from mako import cache
+
+    class C19MemCache(cache.CacheImpl):
+        keys = []
+
+        def get_or_create(self, key, creation_function, **kw):
+            C19MemCache.keys.append(key)
+            return creation_function()
+
+        def set(self, key, value, **kw):
+            pass
+
+        def get(self, key, **kw):
+            return None
+
+        def invalidate(self, key, **kw):
+            pass
+    globals()["C19MemCache"] = C19MemCache
+    try:
+        cache.register_plugin("c19mem", __name__, "C19MemCache")
+    except Exception:
+        pass
+    return C19MemCache
+
+
+ATTR_SLOTS = {
+    "def-filter": '<%%def name="zz(%(sig)s)" filter="flt(%(p)s)">body</%%def>${zz(%(call)s)}',
+    "nested-def-filter": '<%%def name="outer()"><%%def name="zz(%(sig)s)" filter="flt(%(p)s)">body</%%def>${zz(%(call)s)}</%%def>${outer()}',
+    "def-buffered-filter": '<%%def name="zz(%(sig)s)" buffered="True" filter="flt(%(p)s)">body</%%def>${zz(%(call)s)}',
+    "def-cache-key": '<%%def name="zz(%(sig)s)" cached="True" cache_key="${repr(canon(%(p)s))}" cache_impl="c19mem">${repr(canon(%(p)s))}</%%def>${zz(%(call)s)}',
+}
+# fixed witnesses for the <%block> and <%page> analogues and for filter functions supplied through the context:
+# (name, template, render kwargs, expected output)
+ATTR_WITNESSES = [
+    ("block-filter-reads-its-arg", '<%%! %s %%><%%page args="w=1"/><%%block name="bb" args="w" filter="flt(w)">b</%%block>', {"w": 9}, "'9'"),
+    ("block-filter-reads-kwonly-arg", '<%%! %s %%><%%page args="w=1"/><%%block name="bb" args="*, w" filter="flt(w)">b</%%block>', {"w": 9}, "'9'"),
+    ("page-expression-filter-reads-kwonly-arg", '<%%! %s %%><%%page args="x=1, *r, y=2" expression_filter="flt(y)"/>${x}', {}, "'2'"),
+    ("def-filter-function-from-context", '<%%! %s %%><%%def name="zz(t, *, w=3)" filter="cf(w)">b</%%def>${zz(1)}', {"cf": lambda v: (lambda t: "cf%r" % (v,))}, "cf3"),
+    ("block-filter-function-from-context", '<%%! %s %%><%%block name="bb" filter="cf(4)">b</%%block>', {"cf": lambda v: (lambda t: "cf%r" % (v,))}, "cf4"),
+    ("expression-filter-function-from-context", '<%%! %s %%>${"b" | cf(5)}', {"cf": lambda v: (lambda t: "cf%r" % (v,))}, "cf5"),
+    ("page-expression-filter-function-from-context", '<%%! %s %%><%%page expression_filter="cf(6)"/>${"b"}', {"cf": lambda v: (lambda t: "cf%r" % (v,))}, "cf6"),
+]
+
+
+def attr_template(slot, params, call_pos, call_kw, pname, strict):
+    from mako.template import Template
+    d = {"sig": sig_text(params), "p": pname, "call": call_text(call_pos, call_kw)}
+    if '"' in d["sig"]:
+        return ("skip", "")
+    text = "<%!\n" + ENV_SRC + "\n%>" + ATTR_SLOTS[slot] % d
+    try:
+        with time_limit(10):
+            return ("ok", Template(text, strict_undefined=strict).render().strip())
+    except Hang:
+        raise
+    except RecursionError:
+        raise
+    except Exception as e:
+        LAST_TEMPLATE_ERROR[0] = "%s: %s" % (type(e).__name__, e)
+        return ("exc", type(e).__name__)
+
+
+def attr_native(params, call_pos, call_kw, pname):
+    g = _native_env()
+    try:
+        exec("def zz(%s):\n    return repr(canon(%s))" % (sig_text(params), pname), g)
+        return ("ok", eval("zz(%s)" % call_text(call_pos, call_kw), g))
+    except RecursionError:
+        raise
+    except Exception as e:
+        return ("exc", type(e).__name__)
+
+
+def oracle_def_attributes(ctx, n):
+    """every parameter kind of a <%def>, read in the def's OWN attribute expressions (filter= call arguments, cache_key,
+    with buffered=) - top-level and nested, strict_undefined on and off: the value seen there is the argument's value as
+    for a native function, and no parameter is demanded from the context (NameError under strict_undefined); fixed
+    witnesses for the <%block> / <%page> analogues and for filter functions that come from the context"""
+    from mako.template import Template
+    st = ctx.stream("oracle.def-attributes", "oracle")
+    mem = _register_mem_cache()
+    g = SigGen(ctx.rng)
+    slots = list(ATTR_SLOTS)
+    reported = {}
+    i = 0
+    for _ in range(n):
+        params, cp, ck = g.gen()
+        named = [p for p in params if p["kind"] not in ("bare", "slash")]
+        if not named or sig_native(params, cp, ck)[0] != "ok":
+            continue
+        if sig_template("def", params, cp, ck) != sig_native(params, cp, ck):
+            ctx.branch("oracle.def-attributes:skipped:signature-itself-differs")     # oracle.signatures reports those
+            continue
+        for p in named:
+            slot = slots[i % len(slots)]
+            i += 1
+            want = attr_native(params, cp, ck, p["name"])
+            for strict in (False, True):
+                st["cases"] += 1
+                got = attr_template(slot, params, cp, ck, p["name"], strict)
+                if got[0] == "skip":
+                    continue
+                ctx.branch("oracle.def-attributes:%s:%s" % (slot, p["kind"]))
+                if strict:
+                    ctx.nontriv(("attr", slot, sig_text(params), p["name"]))
+                if got == want:
+                    continue
+                msg = LAST_TEMPLATE_ERROR[0] if got[0] == "exc" else ""
+                m = re.match(r"^NameError: '(\w+)' is not defined$", msg)
+                if m and m.group(1) in [q["name"] for q in named]:
+                    site = "construct-demands-own-parameter"
+                    kind = next(q["kind"] for q in named if q["name"] == m.group(1))
+                else:
+                    site, kind = "def-attribute-value-differs", p["kind"]
+                key = (site, kind, slot.split("-")[-1])
+                ctx.branch("oracle.def-attributes:VIOLATION:%s:%s" % (site, kind))
+                if key in reported:
+                    continue
+                reported[key] = True
+                ctx.violation(site, {"input": "<%%def name=\"zz(%s)\"> reading %s in %s, called as zz(%s)" % (
+                                         sig_text(params), p["name"], slot, call_text(cp, ck)),
+                                     "param_kind": kind, "attribute": slot, "strict_undefined": strict, "params": params,
+                                     "signature_beyond_plain": any(q["kind"] in ("star", "kw", "dstar", "bare") for q in params),
+                                     "call_pos": cp, "call_kw": [list(kv) for kv in ck], "param": p["name"]},
+                              "template gives %r (%s), the native function gives %r" % (got, msg, want), "oracle.def-attributes")
+    for name, tmpl, kw, want in ATTR_WITNESSES:
+        for strict in (False, True):
+            st["cases"] += 1
+            try:
+                with time_limit(10):
+                    got = Template(tmpl % ("\n" + ENV_SRC + "\n"), strict_undefined=strict).render(**kw).strip()
+            except Hang:
+                raise
+            except Exception as e:
+                got = "raises %s: %s" % (type(e).__name__, e)
+            if got != want and (name, "w") not in reported:
+                reported[(name, "w")] = True
+                ctx.violation("construct-attribute-witness", {"input": tmpl % "…", "witness": name, "strict_undefined": strict},
+                              "renders %r, expected %r" % (got, want), "oracle.def-attributes")
+
+
+DRIVER_OPS = ["py"]   # per-area driver executable(s) this check talks to (built before any worker is forked)
